@@ -460,7 +460,7 @@ package router
 //@   props C03 C01
 //@   requires r != nil && m != nil && rc != nil && wfMsg(m) && r.cache != nil && r.cache.logger != nil && (r.cache.memory == nil || memOK(r.cache.memory)) && (r.cache.ipMarker == nil || markerOK(r.cache.ipMarker)) && forall(k, 0, len(r.rules), r.rules[k] != nil)
 //@   requires r.queryCacheHitTotal != nil && r.logger != nil && r.queryTotal != nil && r.prefetch != nil && r.prefetch.queue != nil && r.prefetchTotal != nil && r.ctx != nil && limOK(r.limiter)
-//@   modifies *
+//@   modifies rc.Response.Msg, rc.Response.RuleIdx, rc.Response.Cached, rc.Response.IpMark, obj(r.prefetch.queue), field(limiter.e), field(time.Time)
 //@   ensures [C03:always-a-response] rc.Response.Msg != nil && wfMsg(rc.Response.Msg)
 //@   ensures [C20:response-is-its-own-object] rc.Response.Msg != m && fresh(rc.Response.Msg) && ownSecs(rc.Response.Msg)
 //@   ensures [C09:packable] optSmall(rc.Response.Msg) && smallMsg(rc.Response.Msg)
@@ -472,14 +472,30 @@ package router
 // the payload size the client advertised: class of the last OPT record of the query, at least 512
 //@ spec func lastOPTAt(m *dnsmsg.Msg, k int) bool = 0 <= k && k < len(m.Additionals) && isOPT(m.Additionals[k]) && forall(j, k+1, len(m.Additionals), !isOPT(m.Additionals[j]))
 
-//@ func (s *udpServer) writeResp(b []byte, remote netip.AddrPort, oobAddr netip.Addr)
+// writeResp: exactly one datagram - the caller's bytes, to the caller's client - through a socket that is held
+// (its write lock) for the duration of that one write and released afterwards.
+//@ spec func udpOK(s *udpServer) bool = s.logger != nil && len(s.cs) >= 1 && forall(k, 0, len(s.cs), s.cs[k] != nil && s.cs[k].c != nil)
+//@ func (s *udpServer) pickAndLockWmConn() (c *wmUdpConn)
 //@   trusted
-//@   requires s != nil
+//@   requires s != nil && udpOK(s)
 //@   modifies nothing
+//@   ensures c != nil && c.c != nil
+//@ func (s *udpServer) writeResp(b []byte, remote netip.AddrPort, oobAddr netip.Addr)
+//@   props C03 C09
+//@   requires s != nil && udpOK(s)
+//@   ghost nW int = 0
+//@   ghost nUn int = 0
+//@   ghost gC *wmUdpConn = nil
+//@   aftercall pickAndLockWmConn: gC = ret0
+//@   oncall WriteMsgUDPAddrPort: nW = nW + 1
+//@   oncall Unlock: nUn = nUn + 1
+//@   modifies nothing
+//@   ensures [C03:one-datagram-socket-released] nW == 1 && nUn == 1
+//@   callsite WriteMsgUDPAddrPort: [C03,C09:these-bytes-to-this-client] arg0 == gC.c && sameSlice(arg1, b, 0, len(b)) && arg3 == remote && nUn == 0
 
 //@ func (s *udpServer) handleReq(m *dnsmsg.Msg, rc *RequestContext, oobAddr netip.Addr)
 //@   props C03 C09 C01
-//@   requires s != nil && routerReady(s.r) && m != nil && rc != nil && wfMsg(m)
+//@   requires s != nil && routerReady(s.r) && udpOK(s) && m != nil && rc != nil && wfMsg(m)
 //@   ghost nW int = 0
 //@   ghost lastOpt int = -1 -- index of the last OPT record seen so far (witness for the loop invariant)
 //@   oncall writeResp: nW = nW + 1
@@ -869,8 +885,8 @@ package router
 // limiter refuses it the client gets exactly one REFUSED datagram and the query is not handled; otherwise it is
 // handed to exactly one goroutine and nothing is written here. Undecodable datagrams are dropped.
 //@ func (s *udpServer) handleMsg(b []byte, oob []byte, remoteAddr netip.AddrPort, listenerAddr netip.AddrPort)
-//@   props C15 C03
-//@   requires s != nil && routerReady(s.r) && s.logger != nil
+//@   props C15 C03 C01
+//@   requires s != nil && routerReady(s.r) && udpOK(s)
 //@   ghost gM *dnsmsg.Msg = nil
 //@   ghost gB pool.Buffer = nil
 //@   ghost gAdm error = nil
@@ -894,7 +910,7 @@ package router
 // the per-query goroutine of the UDP listener: one answer, then the query and its context are given back
 //@ closure udpServer.handleMsg$1
 //@   props C03 C20
-//@   requires s != nil && routerReady(s.r) && m != nil && wfMsg(m) && rc != nil
+//@   requires s != nil && routerReady(s.r) && udpOK(s) && m != nil && wfMsg(m) && rc != nil
 //@   requires [C20:query-owned-by-the-goroutine] !attr(released, m)
 //@   ghost nH int = 0
 //@   ghost nRel int = 0
@@ -927,7 +943,7 @@ package router
 // is decoded or handled, nothing is forwarded. An admitted request is handled at most once and gets at most one
 // body. The cost (2) is charged to the client address the handler determined.
 //@ func (h *httpHandler) ServeHTTP(w http.ResponseWriter, req *http.Request)
-//@   props C15 C03 C20
+//@   props C15 C03 C20 C01 C09
 //@   requires h != nil && routerReady(h.r) && h.logger != nil && w != nil && req != nil && req.URL != nil
 //@   ghost gAdm error = nil
 //@   ghost nAsk int = 0
@@ -1032,7 +1048,7 @@ package router
 // On a TLS listener nothing is read from the client before the handshake - made with the listener's own TLS
 // configuration on this very connection - has succeeded, and every query is then read through the TLS layer.
 //@ func (s *tcpServer) handleConn(c net.Conn)
-//@   props C13 C15 C17
+//@   props C13 C15 C17 C01
 //@   ghost gTC *tls.Conn = nil
 //@   ghost gHS error = nil
 //@   ghost nHS int = 0
